@@ -31,6 +31,7 @@ SR = {
     "a": np.arange(-2.0, 2.0),
     "b": np.arange(-2.0, 1.2, 0.2),
     "default": np.arange(-1.8, 4.2, 0.2),
+    "c": np.arange(0.0, 3.2, 0.2),          # a grid whose first lambda is 1: the sweep's cold start (from the zero curve) is slow there
 }
 
 
